@@ -40,6 +40,9 @@ func envconcParams(payload string) map[string]int {
 	return m
 }
 
+// runX: the Lean arm `conc` takes an extra column (unused here)
+func (e *envconcEngine) runX(payload string) (string, string) { return e.run(payload), "-" }
+
 func (e *envconcEngine) run(payload string) string {
 	f := strings.Fields(payload)
 	if len(f) == 0 || f[0] != "envconc" {
